@@ -32,6 +32,12 @@ def main(tier, seed):
     for ci, (hist, op, auto, kind) in enumerate(cases):
         other = ci % 2 == 1      # every second case keeps the temp directory on another filesystem than the database
         rec = iotie.recorded_run(tf, str(ck.work / f"rec{ci}"), hist, op, auto, other_fs=other)
+        # old / new are the LOGICAL contents (what the database answers), not what the file happened to hold: a row of an
+        # earlier, completed operation that never reached the file is a lost point
+        lb = iotie.logical_contents(tf, str(ck.work / f"lb{ci}"), hist, auto)
+        la = iotie.logical_contents(tf, str(ck.work / f"la{ci}"), list(hist) + [op], auto)
+        if lb is not None and la is not None:
+            rec["before"], rec["after"] = lb, la
         n = len(rec["events"])
         kinds[kind] = kinds.get(kind, 0) + n + 1
         obs = []
